@@ -112,6 +112,47 @@ class Run:
         if s not in self.assumptions:
             self.assumptions.append(s)
 
+    def _moved_known(self, f: "Finding", free: list[dict[str, Any]]) -> dict[str, Any] | None:
+        cands = [k for k in free if k.get("rule") == f.rule and k.get("module") == f.module and k.get("construct") == f.construct and k.get("function") != f.function]
+        if not cands:
+            return None
+        try:
+            from .inline import known_functions
+
+            mod = next((m for m in self.project.modules.values() if m.relpath == f.module), None)
+            if mod is None:
+                return None
+            pinned = known_functions().get(mod.name)
+            if pinned is None or f.function in pinned or f.function not in mod.functions:
+                return None
+            new_simple = {fi.name: q for q, fi in mod.functions.items() if q not in pinned}
+
+            def callees(q: str) -> set[str]:
+                fi = mod.functions.get(q)
+                if fi is None:
+                    return set()
+                out = set()
+                for c in ast.walk(fi.node):
+                    if isinstance(c, ast.Call):
+                        nm = c.func.id if isinstance(c.func, ast.Name) else c.func.attr if isinstance(c.func, ast.Attribute) else None
+                        if nm in new_simple:
+                            out.add(new_simple[nm])
+                return out
+
+            for k in cands:
+                seen: set[str] = set()
+                stack = list(callees(str(k.get("function"))))
+                while stack:
+                    q = stack.pop()
+                    if q == f.function:
+                        return k
+                    if q not in seen:
+                        seen.add(q)
+                        stack.extend(callees(q))
+        except Exception:
+            return None
+        return None
+
     # -------------------------------------------------------------- finalize
     def finalize(self, replay_key: dict[str, Any] | None = None) -> int:
         known, fixed = load_known(self.prop)
@@ -142,8 +183,15 @@ class Run:
 
         violations: list[Finding] = []
         matched_known: list[dict[str, Any]] = []
+        used_known = {id(k) for f in self.findings for k in [match_known(f, known)] if k is not None}
         for f in self.findings:
             k = match_known(f, known)
+            if k is None:
+                # a listed finding that a refactoring moved into a NEW helper of the function it is listed for is still that
+                # finding (same rule, module and construct; the listed site itself no longer reports; each entry is used once)
+                k = self._moved_known(f, [x for x in known if id(x) not in used_known])
+                if k is not None:
+                    used_known.add(id(k))
             if k is not None:
                 matched_known.append({"key": f.key(), "what": k.get("what", "")})
                 out.append(
